@@ -38,6 +38,10 @@ def explore(ctx, art):
             evs.append(rng.choice("wwwmnc") + str(rng.randrange(1, 5)))
         lines.append("table " + " ".join(evs))
     lines.append("table w1 w2 m1 w1 n3 w3 m3 c2 w2 m9")
+    # the same under concurrency: server-initiated NewConn calls for a new peer at the moment its first datagram arrives
+    # (the application's monitor factory takes 2 ms): one connection per peer
+    lines.append("tablerace %d 3" % (60 if thorough else 15))
+    lines.append("tablerace %d 2" % (60 if thorough else 15))
     # one peer's burst of well-formed requests to a slow resource (handler 150 ms) while a second peer asks for a fast one
     lines.append("serve udpbacklog 0 150 40 0")
     lines.append("serve udpbacklog 0 150 8 0")      # below the receive-queue size: the second peer must be served at once
